@@ -30,7 +30,7 @@ def floor(tier):
 
 
 def cases(tier, rng):
-    n = 32 if tier == "quick" else 400
+    n = 32 if tier == "quick" else 800
     out = []
     for i in range(n):
         cfg = cards.rand_config(rng, ptos=(0, 1, 1, 2) if tier == "thorough" else (0, 1, 1, 1, 2), sv=True, ew=False)
